@@ -6,6 +6,7 @@ import (
 	"io/ioutil"
 	"os"
 	"path/filepath"
+	"runtime/debug"
 	"testing"
 
 	"github.com/ontio/ontology/common"
@@ -144,6 +145,22 @@ type c26ctx struct {
 	inc    [][][]common.Uint256 // inc[k][m]  = InclusionProof(m,k) taken when the tree had size k
 	con    [][][]common.Uint256 // con[k][j]  = ConsistencyProof(j,k) taken when the tree had size k
 	n      uint32
+	evals  int64
+	cls    map[string]int64 // rejected inclusion mutations by kind
+	ccls   map[string]int64 // rejected consistency mutations by kind
+}
+
+func (c *c26ctx) flush() {
+	c.r.Eval(c.evals)
+	c.evals = 0
+	for k, n := range c.cls {
+		c.r.ClassN("incl:mut-"+k+"-rejected", n)
+		delete(c.cls, k)
+	}
+	for k, n := range c.ccls {
+		c.r.ClassN("cons:mut-"+k+"-rejected", n)
+		delete(c.ccls, k)
+	}
 }
 
 func (c *c26ctx) cs(what string, extra ...interface{}) map[string]interface{} {
@@ -157,7 +174,7 @@ func (c *c26ctx) cs(what string, extra ...interface{}) map[string]interface{} {
 // vInc runs the real inclusion verifier; true = accepted.
 func (c *c26ctx) vInc(leaf common.Uint256, idx uint32, proof []common.Uint256, root common.Uint256, size uint32) bool {
 	var err error
-	c.r.Eval(1)
+	c.evals++
 	if p := vh.Catch(func() { err = c.ver.VerifyLeafHashInclusion(leaf, idx, proof, root, size) }); p != "" {
 		c.r.Violation("inclusion:verifier-panic", p, c.cs("VerifyLeafHashInclusion", "index", idx, "size", size, "prooflen", len(proof)))
 		return false
@@ -167,7 +184,7 @@ func (c *c26ctx) vInc(leaf common.Uint256, idx uint32, proof []common.Uint256, r
 
 func (c *c26ctx) vCon(oldSize, newSize uint32, oldRoot, newRoot common.Uint256, proof []common.Uint256) bool {
 	var err error
-	c.r.Eval(1)
+	c.evals++
 	if p := vh.Catch(func() { err = c.ver.VerifyConsistency(oldSize, newSize, oldRoot, newRoot, proof) }); p != "" {
 		c.r.Violation("consistency:verifier-panic", p, c.cs("VerifyConsistency", "old", oldSize, "new", newSize, "prooflen", len(proof)))
 		return false
@@ -181,7 +198,7 @@ func (c *c26ctx) incReject(kind string, m, k uint32, leaf common.Uint256, idx ui
 		c.r.Violationf("inclusion:accepts-"+kind, c.cs("inclusion mutation "+kind, "m", m, "k", k, "index", idx, "size", size),
 			"size %d: inclusion proof of leaf %d in size %d still verifies after mutation %q (index=%d size=%d prooflen=%d)", c.n, m, k, kind, idx, size, len(proof))
 	} else {
-		c.r.Class("incl:mut-" + kind + "-rejected")
+		c.cls[kind]++
 	}
 }
 
@@ -195,7 +212,7 @@ func (c *c26ctx) conReject(kind string, j, k uint32, oldSize, newSize uint32, ol
 			"size %d: VerifyConsistency(old=%d,new=%d,old_root=%x..,new_root=%x..,%d proof nodes) = nil after mutation %q of the honest claim (%d,%d)",
 			c.n, oldSize, newSize, oldRoot[:4], newRoot[:4], len(proof), kind, j, k)
 	} else {
-		c.r.Class("cons:mut-" + kind + "-rejected")
+		c.ccls[kind]++
 	}
 }
 
@@ -624,7 +641,8 @@ func TestVerif_C26(t *testing.T) {
 	r.Need(err == nil, "temp dir: %v", err)
 	defer os.RemoveAll(dir)
 
-	c := &c26ctx{r: r, dir: dir, path: filepath.Join(dir, "merkle.db"), ver: NewMerkleVerifier(),
+	defer debug.SetGCPercent(debug.SetGCPercent(800))
+	c := &c26ctx{cls: map[string]int64{}, ccls: map[string]int64{}, r: r, dir: dir, path: filepath.Join(dir, "merkle.db"), ver: NewMerkleVerifier(),
 		ref: &c26ref{memo: map[uint64]common.Uint256{}}}
 	store, err := NewFileHashStore(c.path, 0)
 	r.Need(err == nil && store != nil, "NewFileHashStore: %v", err)
@@ -691,7 +709,7 @@ func TestVerif_C26(t *testing.T) {
 		}
 		c.inc = append(c.inc, incs)
 		c.con = append(c.con, cons)
-		mine := r.Mine(int(n))
+		mine := r.Mine(int(n - 1))
 		if replay {
 			mine = n == rc.N && r.R.Shard == 0
 		}
@@ -701,7 +719,9 @@ func TestVerif_C26(t *testing.T) {
 		if r.Expired() {
 			break
 		}
-		if p := vh.Catch(func() { c.checkSize(tree) }); p != "" {
+		p := vh.Catch(func() { c.checkSize(tree) })
+		c.flush()
+		if p != "" {
 			r.Violationf("panic-in-size-check", c.cs("size check", "size", n), "size %d: %s", n, p)
 		}
 		checked++
